@@ -136,7 +136,7 @@ func trunc(x []string) []string {
 // ---- field generators shared by the bridge-store checks -------------------------------------
 
 var (
-	genNet = rapid.OneOf(rapid.SampledFrom([]uint32{0, 1, 2, 1 << 31, 1<<32 - 1}), rapid.Uint32())
+	genNet  = rapid.OneOf(rapid.SampledFrom([]uint32{0, 1, 2, 1 << 31, 1<<32 - 1}), rapid.Uint32())
 	genAddr = rapid.OneOf(
 		rapid.SampledFrom([]common.Address{{}, common.HexToAddress("0xffffffffffffffffffffffffffffffffffffffff"), common.HexToAddress("0x01")}),
 		rapid.Custom(func(t *rapid.T) common.Address {
